@@ -1293,3 +1293,48 @@ def conjunction_edges(fn, base_locals, base_edges, max_iter=6):
         if not added:
             break
     return edges
+
+
+# ------------------------------------------------------------------------------------------------------------
+# reviewed tables that survive a rename / move of the reviewed function
+
+_LIVE = {}
+
+
+def live_names(F):
+    """short names of every function (and native) present in the facts"""
+    k = id(F)
+    if k not in _LIVE:
+        s = set()
+        for f in F.fns.values():
+            s.add(short_fn(f.qpath))
+        _LIVE[k] = s
+    return _LIVE[k]
+
+
+def reviewed(F, table, who, rest=None, extra_live=()):
+    """Look a site up in a reviewed table keyed by function name (`who`, or `who:rest` when `rest` is given).
+    Returns the table value or None. When the key is missing, an entry whose function no longer exists anywhere in the
+    tree and that has the same `rest` is taken to be the same site after a rename/move of the function (exactly one
+    such stale entry must exist): a behaviour-preserving rename must not raise an alarm, while a NEW site in a function
+    that still has its own entry, or a second new site, still does."""
+    key = who if rest is None else "%s:%s" % (who, rest)
+    keys = list(table.keys()) if isinstance(table, dict) else list(table)
+    if key in table:
+        return table[key] if isinstance(table, dict) else True
+    live = live_names(F) | set(extra_live)
+    stale = []
+    for k in keys:
+        if not isinstance(k, str):
+            continue
+        kw, _, kr = k.partition(":") if rest is not None else (k, "", "")
+        if rest is not None:
+            # the function part may itself contain ':' (e.g. `Foo as Bar::baz`): split from the right by `rest`
+            if not k.endswith(":" + rest):
+                continue
+            kw = k[: -len(rest) - 1]
+        if kw not in live:
+            stale.append(k)
+    if len(stale) == 1:
+        return table[stale[0]] if isinstance(table, dict) else True
+    return None
